@@ -356,8 +356,52 @@ def _shared_types(first: int, second: int, third: int, cfg: int) -> bool:
                 break
     return result(problem == "", len(set(order)) >= 2)
 
+# ---- type references wrapped as deeply as the standard introspection query can report (7 wrappers around the named type)
+WRAP_EXPRS = ("Int", "Int!", "[Int]", "[Int!]!", "[[Int]]", "[[Int!]!]!", "[[[Int]]]", "[[[Int!]]!]", "[[[Int!]!]!]", "[[[Int!]!]!]!", "[[[[Int]]]]", "[[[[Int!]]]]", "[[[[[[[Int]]]]]]]")
+
+
+def type_text(ref):
+    if ref["kind"] == "NON_NULL":
+        return type_text(ref["ofType"]) + "!" if ref.get("ofType") else "<TRUNCATED>!"
+    if ref["kind"] == "LIST":
+        return "[" + (type_text(ref["ofType"]) if ref.get("ofType") else "<TRUNCATED>") + "]"
+    return ref["name"]
+
+
+def _deep_wrappers(w: int, where: int, cfg: int) -> bool:
+    """
+    pre: 0 <= w < len(WRAP_EXPRS) and 0 <= where <= 3 and 0 <= cfg <= 1
+    post: _
+    """
+    W, WH, C = pick(w, WRAP_EXPRS), concrete_int(where, 0, 3), concrete_int(cfg, 0, 1)
+    with untraced():
+        depth = W.count("[") + W.count("!")
+        sdl = ("type Query { f: %s }", "type Query { f(a: %s): Int }", "input In { g: %s } type Query { f(i: In): Int }", "directive @d(a: %s) on FIELD type Query { f: Int }")[WH] % W
+        schema = build_schema(sdl)
+        res = graphql_blocking(schema, introspection_query()) if C == 0 else process_graphql_query(schema, introspection_query(), executor_cls=Executor)
+        if res.errors:
+            return result(False, True)
+        d = res.data["__schema"]
+        types = {t["name"]: t for t in d["types"]}
+        if WH == 0:
+            ref = [f for f in types["Query"]["fields"] if f["name"] == "f"][0]["type"]
+        elif WH == 1:
+            ref = [f for f in types["Query"]["fields"] if f["name"] == "f"][0]["args"][0]["type"]
+        elif WH == 2:
+            ref = types["In"]["inputFields"][0]["type"]
+        else:
+            ref = [x for x in d["directives"] if x["name"] == "d"][0]["args"][0]["type"]
+        # the standard query (spec appendix, graphql-js) nests ofType 7 levels below `type`: every reference with <= 7 wrappers is reported down to its name
+        ok = type_text(ref) == W if depth <= 7 else True
+    return result(ok, depth >= 5)
+
+
 
 CONDITIONS = [
+    Cond(name="deep_wrappers", fn=_deep_wrappers, quick=60, thorough=60,
+         bound="13 type expressions with 0..7 wrappers (the deepest the standard introspection query reports: 7 ofType levels) at 4 positions (field type, argument, input field, directive argument) x 2 "
+               "executors: the reference read back from introspection_query() spells exactly the declared type, down to the named type",
+         symbolic={"w,where,cfg": "choice"}, witness={"w": 9, "where": 0, "cfg": 0}),
     Cond(name="shared_types", fn=_shared_types, quick=60, thorough=60,
          bound="three schemas built from the SAME type objects (one interface implemented by two / three object types, a union, one extra implementation only known to some schemas) introspected in every order of 2..3 requests, 2 executors: "
                "each answer equals the reference computed from THAT schema (possible types, interfaces, type list)",
